@@ -64,6 +64,12 @@ pub enum Part {
     Iter,
     Remove,
     Clone,
+    /// HashSet algebra between the scripted table and a second set of a different size and layout (C07)
+    SetAlgebra,
+    /// HashTable as a multiset: every key stored twice (C06)
+    Table,
+    /// get_many_mut / get_many_key_value_mut over tuples of stored and absent keys (C15)
+    ManyMut,
 }
 
 #[derive(Clone, Copy, Debug, Serialize, Deserialize)]
@@ -465,6 +471,268 @@ fn part_clone(c: &BCase, m: M, model: Model) -> Result<(), String> {
     Ok(())
 }
 
+fn part_set(c: &BCase, m: M, model: Model, removed: Vec<BKey>) -> Result<(), String> {
+    use hashbrown::HashSet;
+    type S = HashSet<BKey, Ident>;
+    let a: S = m.keys().copied().collect();
+    let ia: BTreeSet<BKey> = model.keys().copied().collect();
+    // B: every third key of A, every second removed key, some keys of its own; other capacity, other insertion order
+    for (bi, bcap) in [0usize, 4 * c.n].into_iter().enumerate() {
+        let mut ib: BTreeSet<BKey> = ia.iter().filter(|k| k.id % 3 == bi as u64).copied().collect();
+        ib.extend(removed.iter().step_by(2).copied());
+        for j in 0..(c.n as u64 / 5) {
+            ib.insert(BKey { id: (1 << 32) + j, h: c.plan.hash(j + 2) });
+        }
+        let mut b: S = HashSet::with_capacity_and_hasher(bcap, Ident);
+        for k in ib.iter().rev() {
+            b.insert(*k);
+        }
+        let empty: S = HashSet::with_hasher(Ident);
+        let ie: BTreeSet<BKey> = BTreeSet::new();
+        for (x, ix, y, iy, what) in [(&a, &ia, &b, &ib, "A,B"), (&b, &ib, &a, &ia, "B,A"), (&a, &ia, &a, &ia, "A,A"), (&a, &ia, &empty, &ie, "A,{}"), (&empty, &ie, &b, &ib, "{},B")] {
+            let chk = |name: &str, got: Vec<BKey>, want: BTreeSet<BKey>| -> Result<(), String> {
+                let n = got.len();
+                let gs: BTreeSet<BKey> = got.into_iter().collect();
+                if gs.len() != n {
+                    return Err(format!("{name}({what}) yields an element twice"));
+                }
+                if gs != want {
+                    return Err(format!("{name}({what}) has {} elements, the reference {} (or other elements)", gs.len(), want.len()));
+                }
+                Ok(())
+            };
+            chk("union", x.union(y).copied().collect(), ix.union(iy).copied().collect())?;
+            chk("intersection", x.intersection(y).copied().collect(), ix.intersection(iy).copied().collect())?;
+            chk("difference", x.difference(y).copied().collect(), ix.difference(iy).copied().collect())?;
+            chk("symmetric_difference", x.symmetric_difference(y).copied().collect(), ix.symmetric_difference(iy).copied().collect())?;
+            chk("operator |", (x | y).into_iter().collect(), ix.union(iy).copied().collect())?;
+            chk("operator &", (x & y).into_iter().collect(), ix.intersection(iy).copied().collect())?;
+            chk("operator ^", (x ^ y).into_iter().collect(), ix.symmetric_difference(iy).copied().collect())?;
+            chk("operator -", (x - y).into_iter().collect(), ix.difference(iy).copied().collect())?;
+            for kind in 0..4 {
+                let mut z = x.clone();
+                let (name, want): (&str, BTreeSet<BKey>) = match kind {
+                    0 => {
+                        z |= y;
+                        ("|=", ix.union(iy).copied().collect())
+                    }
+                    1 => {
+                        z &= y;
+                        ("&=", ix.intersection(iy).copied().collect())
+                    }
+                    2 => {
+                        z ^= y;
+                        ("^=", ix.symmetric_difference(iy).copied().collect())
+                    }
+                    _ => {
+                        z -= y;
+                        ("-=", ix.difference(iy).copied().collect())
+                    }
+                };
+                let d = z.verif_dump();
+                inv::check_structure(&d, inv::Which { lawful_hash: true }, &|i| z.verif_bucket(i).map(|k| k.h)).map_err(|e| format!("after {name} ({what}): {e}"))?;
+                if z.len() != want.len() {
+                    return Err(format!("after {name} ({what}): len() = {}, reference {}", z.len(), want.len()));
+                }
+                chk(name, z.iter().copied().collect(), want.clone())?;
+                for k in &want {
+                    if !z.contains(k) {
+                        return Err(format!("after {name} ({what}): {:?} is not found", k));
+                    }
+                }
+            }
+            if x.is_subset(y) != ix.is_subset(iy) || x.is_superset(y) != ix.is_superset(iy) || x.is_disjoint(y) != ix.is_disjoint(iy) || (x == y) != (ix == iy) {
+                return Err(format!("is_subset / is_superset / is_disjoint / == ({what}) disagree with the reference"));
+            }
+        }
+        let sub: S = ia.iter().step_by(3).copied().collect();
+        if !sub.is_subset(&a) || !a.is_superset(&sub) || (sub.len() < a.len() && a.is_subset(&sub)) {
+            return Err("is_subset / is_superset of a true subset is wrong".into());
+        }
+    }
+    Ok(())
+}
+
+fn part_table(c: &BCase, model: Model) -> Result<(), String> {
+    // element: (key, copy number); every key twice
+    let mut t: HashTable<(BKey, u8)> = HashTable::new();
+    let mut ms: Vec<(BKey, u8)> = Vec::new();
+    for k in model.keys() {
+        for copy in 0..2u8 {
+            t.insert_unique(k.h, (*k, copy), |e| e.0.h);
+            ms.push((*k, copy));
+        }
+    }
+    let chk = |t: &HashTable<(BKey, u8)>, ms: &Vec<(BKey, u8)>, what: &str| -> Result<(), String> {
+        let d = t.verif_dump();
+        inv::check_structure(&d, inv::Which { lawful_hash: true }, &|i| t.verif_bucket(i).map(|e| e.0.h)).map_err(|e| format!("{what}: {e}"))?;
+        let mut got: Vec<(BKey, u8)> = t.iter().copied().collect();
+        let mut want = ms.clone();
+        got.sort();
+        want.sort();
+        if got != want || t.len() != ms.len() {
+            return Err(format!("{what}: the table holds {} elements (len() = {}), the reference multiset {}", got.len(), t.len(), want.len()));
+        }
+        for e in ms {
+            if t.find(e.0.h, |x| x == e).is_none() {
+                return Err(format!("{what}: element {:?} is not found", e));
+            }
+        }
+        Ok(())
+    };
+    chk(&t, &ms, "after storing every key twice")?;
+    // find_entry + remove takes exactly one copy
+    let ks: Vec<BKey> = model.keys().copied().collect();
+    for k in ks.iter().step_by(2) {
+        match t.find_entry(k.h, |e| e.0 == *k) {
+            Ok(o) => {
+                let (e, _) = o.remove();
+                let p = ms.iter().position(|x| *x == e).ok_or_else(|| format!("find_entry({:?}).remove() returned {:?}, which the table did not hold", k, e))?;
+                ms.swap_remove(p);
+            }
+            Err(_) => return Err(format!("find_entry({:?}) finds neither copy", k)),
+        }
+    }
+    chk(&t, &ms, "after removing one copy of every second key")?;
+    // iter_hash: all elements stored with that hash, each once
+    for k in ks.iter().take(6).chain(ks.iter().rev().take(6)) {
+        let got: Vec<(BKey, u8)> = t.iter_hash(k.h).filter(|e| e.0.h == k.h).copied().collect();
+        let mut g = got.clone();
+        g.sort();
+        g.dedup();
+        let want = ms.iter().filter(|e| e.0.h == k.h).count();
+        if g.len() != got.len() || got.len() != want {
+            return Err(format!("iter_hash({:#x}) yields {} elements with that hash ({} distinct), the table holds {want}", k.h, got.len(), g.len()));
+        }
+    }
+    // entry: occupied for stored keys, vacant insert for new ones
+    let nk = BKey { id: 1 << 40, h: c.plan.hash(9) };
+    match t.entry(nk.h, |e| e.0 == nk, |e| e.0.h) {
+        hashbrown::hash_table::Entry::Vacant(v) => {
+            v.insert((nk, 0));
+            ms.push((nk, 0));
+        }
+        hashbrown::hash_table::Entry::Occupied(_) => return Err("entry() of a new key is Occupied".into()),
+    }
+    if let Some(k) = ks.first() {
+        match t.entry(k.h, |e| e.0 == *k, |e| e.0.h) {
+            hashbrown::hash_table::Entry::Occupied(_) => {}
+            hashbrown::hash_table::Entry::Vacant(_) => return Err(format!("entry() of the stored key {:?} is Vacant", k)),
+        }
+    }
+    chk(&t, &ms, "after entry()")?;
+    // get_many_mut on three distinct stored elements; writes land in exactly those
+    if ms.len() >= 3 {
+        let (e0, e1, e2) = (ms[0], ms[ms.len() / 2], ms[ms.len() - 1]);
+        let r = t.get_many_mut([e0.0.h, e1.0.h, e2.0.h], |i, x| *x == [e0, e1, e2][i]);
+        match r {
+            [Some(a), Some(b), Some(cc)] => {
+                a.1 += 10;
+                b.1 += 20;
+                cc.1 += 30;
+            }
+            _ => return Err("get_many_mut of three stored elements reports one absent".into()),
+        }
+        let n = ms.len();
+        ms[0].1 += 10;
+        ms[n / 2].1 += 20;
+        ms[n - 1].1 += 30;
+        chk(&t, &ms, "after writing through get_many_mut")?;
+    }
+    // retain / extract_if / shrink / reserve with the caller's hasher
+    t.retain(|e| e.0.id % 5 != 0);
+    ms.retain(|e| e.0.id % 5 != 0);
+    chk(&t, &ms, "after retain")?;
+    let ex: Vec<(BKey, u8)> = t.extract_if(|e| e.1 % 2 == 1).collect();
+    let want: Vec<(BKey, u8)> = ms.iter().filter(|e| e.1 % 2 == 1).copied().collect();
+    ms.retain(|e| e.1 % 2 != 1);
+    if ex.len() != want.len() {
+        return Err(format!("extract_if yielded {} elements, {} selected", ex.len(), want.len()));
+    }
+    chk(&t, &ms, "after extract_if")?;
+    t.shrink_to_fit(|e| e.0.h);
+    chk(&t, &ms, "after shrink_to_fit")?;
+    t.reserve(2 * c.n, |e| e.0.h);
+    if t.capacity() < t.len() + 2 * c.n {
+        return Err("reserve(2n) gave less capacity than asked".into());
+    }
+    chk(&t, &ms, "after reserve")?;
+    let cl = t.clone();
+    chk(&cl, &ms, "clone()")?;
+    t.clear();
+    chk(&t, &Vec::new(), "after clear()")
+}
+
+fn part_many(c: &BCase, mut m: M, mut model: Model, removed: Vec<BKey>) -> Result<(), String> {
+    let ks: Vec<BKey> = model.keys().copied().collect();
+    if ks.is_empty() {
+        return Ok(());
+    }
+    let n = ks.len();
+    let absent = removed.first().copied().unwrap_or(BKey { id: u64::MAX, h: c.plan.hash(1) });
+    // by bucket position: the stored keys in the first and the last occupied buckets (and the middle one)
+    let d = m.verif_dump();
+    let occupied: Vec<BKey> = (0..=d.bucket_mask).filter_map(|i| m.verif_bucket(i).map(|(k, _)| *k)).collect();
+    let picks = [occupied[0], occupied[occupied.len() / 2], occupied[occupied.len() - 1], ks[0], ks[n / 2], ks[n - 1], ks[n / 3]];
+    let mut stamp = 1000u64;
+    for i in 0..picks.len() {
+        for j in 0..picks.len() {
+            let (a, b) = (picks[i], picks[j]);
+            // pairs, with an absent key in between
+            let req = [a, absent, b];
+            let r = env::catch(|| {
+                let got = m.get_many_mut([&req[0], &req[1], &req[2]]);
+                let mut out = [None, None, None];
+                for (x, g) in got.into_iter().enumerate() {
+                    if let Some(v) = g {
+                        out[x] = Some(*v);
+                        *v = stamp + x as u64;
+                    }
+                }
+                out
+            });
+            if a == b {
+                match r {
+                    Err(msg) if msg.contains("duplicate") => {}
+                    Err(msg) => return Err(format!("get_many_mut with the same key twice panicked with an unexpected message: {msg}")),
+                    Ok(_) => return Err(format!("get_many_mut([{:?}, absent, {:?}]) returned instead of panicking", a, b)),
+                }
+                continue;
+            }
+            let out = match r {
+                Ok(o) => o,
+                Err(msg) => return Err(format!("get_many_mut([{:?}, absent, {:?}]) of two different stored keys panicked: {msg}", a, b)),
+            };
+            if out[0] != model.get(&a).copied() || out[1].is_some() || out[2] != model.get(&b).copied() {
+                return Err(format!("get_many_mut([{:?}, absent, {:?}]) = {:?}, reference has {:?} / None / {:?}", a, b, out, model.get(&a), model.get(&b)));
+            }
+            model.insert(a, stamp);
+            model.insert(b, stamp + 2);
+            stamp += 10;
+        }
+    }
+    same(&m, &model, "after writing through get_many_mut")?;
+    // four keys at once, key-value form
+    let req = [picks[0], picks[2], picks[4], picks[5]];
+    let mut distinct = req.to_vec();
+    distinct.sort();
+    distinct.dedup();
+    if distinct.len() == 4 {
+        let got = m.get_many_key_value_mut([&req[0], &req[1], &req[2], &req[3]]);
+        for (x, g) in got.into_iter().enumerate() {
+            match g {
+                Some((k, v)) if *k == req[x] && Some(&*v) == model.get(&req[x]) => *v += 1,
+                other => return Err(format!("get_many_key_value_mut: request #{x} ({:?}) gave {:?}", req[x], other.map(|(k, v)| (*k, *v)))),
+            }
+        }
+        for k in &req {
+            *model.get_mut(k).unwrap() += 1;
+        }
+        same(&m, &model, "after writing through get_many_key_value_mut")?;
+    }
+    Ok(())
+}
+
 pub fn run_case(c: &BCase) -> Result<u64, String> {
     crate::crumbs::touch();
     let (m, model, removed) = build(c)?;
@@ -474,6 +742,9 @@ pub fn run_case(c: &BCase) -> Result<u64, String> {
         Part::Iter => part_iter(c, m, model)?,
         Part::Remove => part_remove(c, m, model)?,
         Part::Clone => part_clone(c, m, model)?,
+        Part::SetAlgebra => part_set(c, m, model, removed)?,
+        Part::Table => part_table(c, model)?,
+        Part::ManyMut => part_many(c, m, model, removed)?,
     }
     Ok(n)
 }
@@ -481,7 +752,8 @@ pub fn run_case(c: &BCase) -> Result<u64, String> {
 pub fn cases(tier: Tier, part: Part) -> Vec<BCase> {
     let q = tier == Tier::Quick;
     let w = hashbrown::verif::GROUP_WIDTH;
-    let ns: Vec<usize> = if q { vec![130, 40 * w] } else { vec![113, 130, 224, 225, 449, 40 * w, 1000] };
+    // 112, 224: tables filled exactly to their capacity (128 and 256 buckets) before the thinning
+    let ns: Vec<usize> = if q { vec![112, 130, 40 * w] } else { vec![112, 113, 130, 224, 225, 449, 40 * w, 1000] };
     let plans = [WPlan::Zero, WPlan::Seq, WPlan::Stride, WPlan::Mix, WPlan::Four];
     let thins = [Thin::None, Thin::EverySecond, Thin::FirstHalf, Thin::LastHalf, Thin::AllBut3, Thin::Scatter];
     let mut v = Vec::new();
